@@ -6,6 +6,7 @@ import (
 	"errors"
 	"fmt"
 	"io"
+	"math"
 	"net"
 	"strconv"
 	"strings"
@@ -165,10 +166,13 @@ func (s *redisServer) execute(w *bufio.Writer, args [][]byte) error {
 	s.metrics.IncCommand(cmd)
 	switch cmd {
 	case "PING":
-		if len(args) > 1 && len(args[1]) > 0 {
+		switch len(args) {
+		case 1:
+			return writeSimpleString(w, "PONG")
+		case 2:
 			return writeBulk(w, args[1])
 		}
-		return writeSimpleString(w, "PONG")
+		return s.respondError(w, "wrong number of arguments for 'PING'")
 	case "ECHO":
 		if len(args) != 2 {
 			return s.respondError(w, "wrong number of arguments for 'ECHO'")
@@ -213,7 +217,7 @@ func (s *redisServer) execute(w *bufio.Writer, args [][]byte) error {
 		if len(args) != 3 {
 			return s.respondError(w, "wrong number of arguments for 'INCRBY'")
 		}
-		delta, err := strconv.ParseInt(string(args[2]), 10, 64)
+		delta, err := parseRedisInt(args[2])
 		if err != nil {
 			return s.respondError(w, errNotIntegerMsg)
 		}
@@ -222,9 +226,13 @@ func (s *redisServer) execute(w *bufio.Writer, args [][]byte) error {
 		if len(args) != 3 {
 			return s.respondError(w, "wrong number of arguments for 'DECRBY'")
 		}
-		delta, err := strconv.ParseInt(string(args[2]), 10, 64)
+		delta, err := parseRedisInt(args[2])
 		if err != nil {
 			return s.respondError(w, errNotIntegerMsg)
+		}
+		if delta == math.MinInt64 {
+			// -delta does not exist; Redis answers "decrement would overflow".
+			return s.respondError(w, errOverflowMsg)
 		}
 		return s.execIncrBy(w, args[1], -delta)
 	case "EXISTS":
@@ -286,7 +294,7 @@ func (s *redisServer) execSet(w *bufio.Writer, args [][]byte) error {
 			if i+1 >= len(args) {
 				return s.respondError(w, "syntax error")
 			}
-			num, err := strconv.ParseInt(string(args[i+1]), 10, 64)
+			num, err := parseRedisInt(args[i+1])
 			if err != nil {
 				return s.respondError(w, "value is not an integer or out of range")
 			}
@@ -294,27 +302,22 @@ func (s *redisServer) execSet(w *bufio.Writer, args [][]byte) error {
 				return s.respondError(w, "invalid expire time in set")
 			}
 			switch opt {
-			case "EX":
-				now := time.Now()
-				expireAt = uint64(now.Add(time.Duration(num) * time.Second).Unix())
-				if expireAt <= uint64(now.Unix()) {
-					expireAt = uint64(now.Add(time.Second).Unix())
+			case "EX", "PX":
+				// second arithmetic on int64: no time.Duration overflow for large TTLs
+				now := time.Now().Unix()
+				secs := num
+				if opt == "PX" {
+					secs = (num + 999) / 1000
 				}
-			case "PX":
-				now := time.Now()
-				expireAt = uint64(now.Add(time.Duration(num) * time.Millisecond).Unix())
-				if expireAt <= uint64(now.Unix()) {
-					expireAt = uint64(now.Add(time.Second).Unix())
+				if secs > math.MaxInt64-now {
+					return s.respondError(w, "invalid expire time in set")
 				}
+				expireAt = uint64(now + secs)
 			case "EXAT":
 				expireAt = uint64(num)
 			case "PXAT":
-				sec := num / 1000
-				nsec := (num % 1000) * int64(time.Millisecond)
-				expireAt = uint64(time.Unix(sec, nsec).Unix())
-			}
-			if expireAt == 0 {
-				return s.respondError(w, "invalid expire time in set")
+				// sub-second timestamps round up so that PXAT 1..999 stays a valid (elapsed) expiry
+				expireAt = uint64((num + 999) / 1000)
 			}
 			hasExpire = true
 			i += 2
@@ -417,6 +420,27 @@ func (s *redisServer) execExists(w *bufio.Writer, keys [][]byte) error {
 		return err
 	}
 	return writeInteger(w, count)
+}
+
+// parseRedisInt accepts exactly what Redis' string2ll accepts: an optional '-',
+// no '+', no leading zeros, no blanks, within int64.
+func parseRedisInt(b []byte) (int64, error) {
+	if len(b) == 0 || len(b) > 20 {
+		return 0, errNotInteger
+	}
+	digits := b
+	if b[0] == '-' {
+		digits = b[1:]
+	}
+	if len(digits) == 0 || (digits[0] == '0' && len(b) > 1) {
+		return 0, errNotInteger
+	}
+	for _, c := range digits {
+		if c < '0' || c > '9' {
+			return 0, errNotInteger
+		}
+	}
+	return strconv.ParseInt(string(b), 10, 64)
 }
 
 func parseRESP(r *bufio.Reader) ([][]byte, error) {
